@@ -112,6 +112,9 @@ def loopy_kernel(which, n):
             k = lp.merge([ka, kb])
         else:
             raise ValueError(which)
+        # loopy's default for this option is sys.flags.optimize: pin it, so
+        # that "the same kernel" is the same in a python -O interpreter
+        k = lp.set_options(k, skip_arg_checks=False)
         _KERNELS[key] = k
     return _KERNELS[key]
 
